@@ -162,6 +162,7 @@ class Program:
                 self.fns[fn["id"]] = fn
             for k in raw["consts"]:
                 self.consts[k["def"]] = k
+                NAMED_CONSTS[k["def"]] = k
         for b in self.bodies.values():
             if b.parent and b.parent in self.bodies:
                 self.bodies[b.parent].children.append(b.id)
@@ -222,6 +223,9 @@ def op_place(op):
     return None
 
 
+NAMED_CONSTS = {}      # def path -> exported constant record (filled when a Program is loaded)
+
+
 _ESC = {"n": 10, "r": 13, "t": 9, "0": 0, "\\": 92, "'": 39, '"': 34}
 
 
@@ -245,6 +249,13 @@ def _char_value(text):
 def op_const(op):
     if op is not None and "const" in op:
         c = op["const"]
+        # a named constant of the workspace (`LINE_TERMINATOR`, `COMMAND_LIST_PREFIX`): its value is in the program's constant
+        # table — an operand that names it is that value
+        nv = NAMED_CONSTS.get(c.get("named")) if c.get("named") else None
+        if nv is not None:
+            for k in ("int", "bytes"):
+                if c.get(k) is None and nv.get(k) is not None:
+                    c[k] = nv[k]
         # constants of range patterns (`'a'..='z'`) are exported without their scalar value: recover it from the literal
         if c.get("ty") == "char" and c.get("int") is None and isinstance(c.get("c"), str):
             v = _char_value(c["c"])
